@@ -1963,7 +1963,7 @@ _BK = (
 )
 _PB = dict(K=4)
 _VB = dict(K=[1, 3, 6, 10])
-_T("becke.BeckeWeights.__init__", "radii", "radii = {1: 0.5, 8: 1.2}\n", "BeckeWeights(radii, order=2)", ["radii"], _PB, _VB)
+_T("becke.BeckeWeights.__init__", "radii", "radii = {6: 0.75, 8: 1.2}\n", "BeckeWeights(radii, order=2)", ["radii"], _PB, _VB)
 _T("becke.BeckeWeights.__init__", "radii_used", _BK + "radii = {1: 0.5, 8: 1.2}\ndef mk(radii, points, atcoords, atnums):\n    return BeckeWeights(radii, order=2).generate_weights(points, atcoords, atnums, select=0)\n", "mk(radii, points, atcoords, atnums)", ["radii", "points", "atcoords", "atnums"], _PB, _VB)
 _T("becke.BeckeWeights.generate_weights", "select_int", _BK, "bw.generate_weights(points, atcoords, atnums, select=1)", ["bw", "points", "atcoords", "atnums"], dict(K=1), _VB, alias=[("points", "atcoords")])
 _T("becke.BeckeWeights.generate_weights", "select_list", _BK + "select = [2]\n", "bw.generate_weights(points, atcoords, atnums, select=select)", ["bw", "points", "atcoords", "atnums", "select"], _PB, _VB)
